@@ -78,14 +78,16 @@ func setup(t *rapid.T) *machine {
 			m.types = append(m.types, ft)
 		}
 	}
-	ents := [][]uint{{1}, {2}}
+	// [1,1] is nested below [1]: addresses that are prefixes of each other must not be confused
+	ents := [][]uint{{1}, {2}, {1, 1}}
 	locals := []api.EntityLocalInterface{
 		m.w.AddLocalEntity(ents[0], model.EntityTypeTypeCEM, time.Second),
 		m.w.AddLocalEntity(ents[1], model.EntityTypeTypeEVSE, time.Second),
+		m.w.AddLocalEntity(ents[2], model.EntityTypeTypeEV, time.Second),
 	}
 	m.ents = locals
 	for i, ft := range m.types {
-		e := i % 2
+		e := (i + rapid.IntRange(0, 2).Draw(t, fmt.Sprintf("entityOf%d", i))) % 3
 		for _, role := range []model.RoleType{model.RoleTypeServer, model.RoleTypeClient} {
 			spec := world.FeatSpec{Type: ft, Role: role}
 			if role == model.RoleTypeServer {
@@ -222,6 +224,15 @@ func (m *machine) step(t *rapid.T) {
 				cands = append(cands, i)
 			}
 		}
+		if len(cands) == 0 {
+			// no feature of that class is left (its entity was removed): address NodeManagement
+			destClass = "special"
+			for i, l := range m.local {
+				if l.class == "special" {
+					cands = append(cands, i)
+				}
+			}
+		}
 		dest = &m.local[cands[rapid.IntRange(0, len(cands)-1).Draw(t, "dest")]]
 		destAddr = world.LA(dest.ent, dest.id)
 	}
@@ -301,6 +312,12 @@ func (m *machine) step(t *rapid.T) {
 				if l.class == "server" {
 					servers = append(servers, l)
 				}
+			}
+			if len(servers) == 0 || len(clients) == 0 {
+				// every server feature lived on the removed entity: fall back to a use-case read
+				fn = model.FunctionTypeNodeManagementUseCaseData
+				cmd.NodeManagementUseCaseData = &model.NodeManagementUseCaseDataType{}
+				break
 			}
 			c := clients[rapid.IntRange(0, len(clients)-1).Draw(t, "callClient")]
 			s := servers[rapid.IntRange(0, len(servers)-1).Draw(t, "callServer")]
